@@ -48,7 +48,7 @@ def opAirDensity : P String := do
 
 def outRow (r : Row Float) : String :=
   outFs [r.time, r.distance, r.velocity, r.mach, r.height, r.targetDrop, r.dropAdj, r.windage, r.windageAdj,
-         r.lookDistance, r.angle, r.densityFactor, r.drag, r.energy, r.ogw] ++ " " ++ toString r.flag
+         r.lookDistance, r.angle, r.densityFactor, r.drag, r.energy, r.ogw] ++ " " ++ toString r.flag.toNat
 
 def outRows (rs : List (Row Float)) : String :=
   s!"rows {rs.length} " ++ " ".intercalate (rs.map outRow)
@@ -56,7 +56,7 @@ def outRows (rs : List (Row Float)) : String :=
 def opRow : P String := do
   let time ← pF; let r ← pVec; let v ← pVec; let velocity ← pF; let mach ← pF; let spin ← pF
   let look ← pF; let dens ← pF; let drag ← pF; let weight ← pF; let flag ← pNat
-  pure (match createRow time r v velocity mach spin look dens drag weight flag with
+  pure (match createRow time r v velocity mach spin look dens drag weight (Flags.ofNat flag) with
     | some row => "ok " ++ outRow row
     | none => "err:zerodiv")
 
@@ -108,7 +108,7 @@ def opFire : P String := do
   let (s, t) ← pShot
   let maxRange ← pF; let step ← pF; let flags ← pNat; let ts ← pF
   let r := Run.ofShot cfg s t
-  pure (match integrate r (barrelElevationOf s) maxRange step flags ts loopFuel skipFuel with
+  pure (match integrate r (barrelElevationOf s) maxRange step (Flags.ofNat flags) ts loopFuel skipFuel with
     | .ok rows => "ok " ++ outRows rows
     | .error e => outErr e)
 
